@@ -110,6 +110,48 @@ def _e(src="s", mtime=1, imports=(), app_config=None, file_path="x"):
     return {"source": src, "mtime": mtime, "imports": set(imports), "app_config": app_config, "file_path": file_path}
 
 
+def flag_history_rule(ctx, program, rid):
+    """update_yaml_config interpreted over histories of flag settings; hass.data persists from call to call."""
+    uid = "__init__.py::update_yaml_config"
+    flags = ("hass_is_global", "allow_all_imports", "legacy_decorators")
+    glob = {"DOMAIN": Const("pyscript"), "CONFIG_ENTRY_OLD": Const("config_entry_old"), "CONF_HASS_IS_GLOBAL": Const(flags[0]), "CONF_ALLOW_ALL_IMPORTS": Const(flags[1]),
+            "CONF_LEGACY_DECORATORS": Const(flags[2]), "SOURCE_IMPORT": Const("import")}
+    A = {"hass_is_global": False, "allow_all_imports": False}
+    B = {"hass_is_global": True, "allow_all_imports": False}
+    C = {"hass_is_global": True, "allow_all_imports": True, "legacy_decorators": True}
+    # (history of flag settings seen by successive reloads; the first entry establishes the remembered value)
+    for hist in ([A, A, A], [A, B, B, B], [A, B, A, A], [A, C, C, B, B], [B, B, C, C, C]):
+        heap = {"hass.data": DictV([(Const("pyscript"), DictV([]))])}
+        results = []
+        bad = None
+        for fl in hist:
+            data = DictV([(Const(k), Const(v)) for k, v in fl.items()] + [(Const("apps"), DictV([]))])
+            pol = FlowPolicy(program, may_raise_all=False, cancel=False, globals_=glob,
+                             summaries={"async_hass_config_yaml": lambda i, n, a, k, c, o: [(c, DictV([]))], "PYSCRIPT_SCHEMA": lambda i, n, a, k, c, o, data=data: [(c, DictV(data.items))],
+                                        "hass.config_entries.flow.async_init": lambda i, n, a, k, c, o: [(c, NONE)], "hass.data.setdefault": lambda i, n, a, k, c, o: [(c, NONE)]})
+            pol.loop_unroll = 4
+            h2 = dict(heap)
+            h2["config_entry.data"] = data
+            out = run_flow(program, uid, pol, args={"hass": ObjV("hass", "HomeAssistant"), "config_entry": ObjV("config_entry", "ConfigEntry")}, heap=h2)
+            rets = [(c.env.get("$ret"), c) for k, c, d in exits(out) if k == "return"]
+            if len(rets) != 1 or not isinstance(rets[0][0], Const):
+                bad = f"{len(rets)} exits / result {[repr(r[0]) for r in rets]}"
+                break
+            results.append(rets[0][0].v)
+            heap = {"hass.data": rets[0][1].heap.get("hass.data")}
+        def eff(f):
+            return tuple(bool(f.get(k, False)) for k in flags)
+        want = [None] + [eff(hist[i]) != eff(hist[i - 1]) for i in range(1, len(hist))]
+        if bad is None:
+            diffs = [i for i in range(1, len(hist)) if results[i] != want[i]]
+            if diffs:
+                i = diffs[0]
+                bad = (f"reload #{i} (flags {eff(hist[i])}, previous reload had {eff(hist[i - 1])}) returns {results[i]}: "
+                       + ("every context is discarded and re-run although nothing changed" if results[i] else "a changed global flag does not reach the running scripts"))
+        ctx.check(bad is None, rid, uid, f"flag history {[eff(f) for f in hist]}", msg=f"update_yaml_config over the history {[eff(f) for f in hist]}: {bad}",
+                  key=f"flag history {[eff(f) for f in hist]}", node=program.func(uid), rel="__init__.py")
+
+
 def scenarios():
     S = []
     base_files = {"file.main": _f(rel_path="main.py"), "file.other": _f(rel_path="other.py")}
@@ -171,6 +213,14 @@ def scenarios():
     ex = {"file.main": _e()}
     fl = {"file.main": _f(rel_path="main.py"), "modules.unused": _f(src="new", autoload=False, rel_path="modules/unused.py")}
     S.append(("module nobody imports exists on disk", ex, fl, None, (), ()))
+    # imported module file deleted (or renamed with '#'): its importer no longer matches its source's imports and is re-run
+    ex = {"file.main": _e(imports={"modules.m1"}), "modules.m1": _e(), "file.other": _e()}
+    fl = {"file.main": _f(rel_path="main.py"), "file.other": _f(rel_path="other.py")}
+    S.append(("imported module file deleted: the importer is re-run", ex, fl, None, ("file.main", "modules.m1"), ("file.main",)))
+    # ... through a chain: main -> m1 -> m2 ; m2 deleted
+    ex = {"file.main": _e(imports={"modules.m1"}), "modules.m1": _e(imports={"modules.m2"}), "modules.m2": _e(), "file.other": _e()}
+    fl = {"file.main": _f(rel_path="main.py"), "file.other": _f(rel_path="other.py"), "modules.m1": _f(autoload=False, rel_path="modules/m1.py")}
+    S.append(("module at the end of an import chain deleted", ex, fl, None, ("file.main", "modules.m1", "modules.m2"), ("file.main",)))
     return S
 
 
@@ -248,6 +298,14 @@ def run(ctx):
     for case, got in import_reuse_cases(program):
         ctx.check(got == "ok", "R10.I", mi, f"reuse: {case}", msg=f"module_import: {case}: {got}: an unchanged module would be executed again (and its old context dropped) on reload",
                   key=f"reuse {case}", node=program.func(mi), rel="global_ctx.py")
+
+    ctx.rule("R10.E", "an import executed inside a function is recorded (as an import edge) on the context that defined the function, not on its caller's: "
+             "the function body runs with the evaluator switched to the defining context object", floor=2)
+    from .c11 import defining_context_rule
+    defining_context_rule(ctx, program, "R10.E")
+    ctx.rule("R10.Y", "widening to '*' for a changed global flag happens once: a reload whose flags equal those of the previous reload is not widened "
+             "(histories of update_yaml_config calls)", floor=4)
+    flag_history_rule(ctx, program, "R10.Y")
 
     ctx.rule("R10.F", "everything a reload (re)loads is also started: start_global_contexts, given the same argument, selects every context load_scripts loaded", floor=10)
     started_table(ctx, program, "R10.F")
